@@ -279,10 +279,12 @@ func (i *input) lex() {
 					}
 					comment.WriteRune(c)
 				}
+				// A line that ends in CR LF leaves the carriage return in front of
+				// the line feed: it belongs to the line terminator, not to the text.
 				i.comments = append(i.comments, &Comment{
 					StartLine: startLine,
 					EndLine:   i.pos.line,
-					Text:      comment.String(),
+					Text:      strings.TrimSuffix(comment.String(), "\r"),
 				})
 			}
 		}
